@@ -56,17 +56,11 @@ Lemma push_appends b k e :
   (k = KNormal -> qn (fst (push_entry b k e)) = qn b ++ [e] /\ qi (fst (push_entry b k e)) = qi b) /\
   (k = KIntr -> qi (fst (push_entry b k e)) = qi b ++ [e] /\ qn (fst (push_entry b k e)) = qn b).
 Proof. destruct k; simpl; split; intros; try discriminate; auto. Qed.
-Lemma dispatch_takes_queue_in_order b oi batch b1 : disp_lock b oi = (batch, b1) ->
-  (batch = qi b /\ qi b <> [] /\ qn b1 = qn b /\ qi b1 = []) \/
-  (qi b = [] /\ oi = true /\ batch = [] /\ qn b1 = qn b) \/
-  (qi b = [] /\ oi = false /\ batch = qn b /\ qn b1 = [] /\ qi b1 = []).
-Proof.
-  unfold disp_lock. destruct (qi b) eqn:Ei; [destruct oi; [|destruct (qn b) eqn:En]|]; intros H; injection H as <- <-; simpl.
-  - right; left; auto.
-  - right; right; auto.
-  - right; right; repeat split; auto.
-  - left; repeat split; auto. congruence.
-Qed.
+Lemma dispatch_takes_queue_in_order b oi batch b1 oi' : disp_lock b oi = Some (batch, b1, oi') ->
+  exists ti tn : bool,
+    batch = (if ti then qi b else []) ++ (if tn then qn b else []) /\
+    qi b1 = (if ti then [] else qi b) /\ qn b1 = (if tn then [] else qn b).
+Proof. intros H. apply (disp_lock_spec _ _ _ _ _ H). Qed.
 Lemma push_first_iff_empty b k e :
   snd (push_entry b k e) = match k with KNormal => match qn b with [] => true | _ => false end
                                       | KIntr => match qi b with [] => true | _ => false end end.
